@@ -796,6 +796,14 @@ func forwardEx(starts []startPoint, visit func(in ssa.Instruction) searchAction,
 		stopped := false
 		for k := it.i; k < len(it.b.Instrs); k++ {
 			in := it.b.Instrs[k]
+			// the return of an immediately-invoked literal is not an exit: control continues after its call
+			if _, isRet := in.(*ssa.Return); isRet {
+				if site := iifeSiteCached(in.Parent()); site != nil {
+					stack = append(stack, item{site.Block(), instrIndex(site) + 1})
+					stopped = true
+					break
+				}
+			}
 			switch visit(in) {
 			case found:
 				if hit == nil {
@@ -817,13 +825,7 @@ func forwardEx(starts []startPoint, visit func(in ssa.Instruction) searchAction,
 				}
 			}
 			switch in.(type) {
-			case *ssa.Return:
-				if site := iifeSiteCached(in.Parent()); site != nil {
-					stack = append(stack, item{site.Block(), instrIndex(site) + 1})
-				} else {
-					reachedExit = true
-				}
-			case *ssa.Panic:
+			case *ssa.Return, *ssa.Panic:
 				reachedExit = true
 			}
 		}
@@ -995,47 +997,14 @@ func flipOp(op token.Token) token.Token {
 // guardedByNil reports whether block target is dominated by the edge of some
 // If in fn on which a value satisfying isV is (wantNil) nil / non-nil.
 func guardedByNil(fn *ssa.Function, target *ssa.BasicBlock, isV func(ssa.Value) bool, wantNil bool) bool {
-	for _, f := range enclosingChain(target, fn) {
-		if f != fn && guardedByNil(f, target, isV, wantNil) {
-			return true
-		}
-	}
-	for _, ifi := range ifsIn(fn) {
-		s, ok := nilEdge(ifi, isV)
-		if !ok {
-			continue
-		}
-		if !wantNil {
-			s = 1 - s
-		}
-		if edgeDominates(ifi.Block(), s, target) {
-			return true
-		}
-	}
-	return false
+	return factGuards(fn, target, factNil(isV, wantNil))
 }
 
 // guardedByBool reports whether target is dominated by the edge of some If on
-// which the boolean satisfying isV has value want.
+// which the boolean satisfying isV has value want (directly, or through an
+// immediately-invoked bool literal that implies it).
 func guardedByBool(fn *ssa.Function, target *ssa.BasicBlock, isV func(ssa.Value) bool, want bool) bool {
-	for _, f := range enclosingChain(target, fn) {
-		if f != fn && guardedByBool(f, target, isV, want) {
-			return true
-		}
-	}
-	for _, ifi := range ifsIn(fn) {
-		s, ok := boolEdge(ifi, isV)
-		if !ok {
-			continue
-		}
-		if !want {
-			s = 1 - s
-		}
-		if edgeDominates(ifi.Block(), s, target) {
-			return true
-		}
-	}
-	return false
+	return factGuards(fn, target, factBool(isV, want))
 }
 
 // ---------------------------------------------------------------------------
